@@ -31,6 +31,12 @@ def encode_decode(x, p):
     n = p['n']
     q = p['q']
     v = x.bytes('v', n)
+    if p.get('after_other_quote'):
+        # the same contents were spelled before, as a literal with the other
+        # quote character (and as a long string): each token is spelled for
+        # its own delimiters
+        lexer.TokString(v, 0, 0, quote=bytes([73 - q])).code
+        lexer.TokString(v, 0, 0, multiline_quote=b'').code
     tok = lexer.TokString(v, 0, 0, quote=bytes([q]))
     code = tok.code
     x.out('code', code)
@@ -153,7 +159,8 @@ def after_other_writer(x, p):
 Q = {'_budget': 300}
 HARNESSES = [
     Harness('encode_decode', encode_decode,
-            quick=[dict(Q, n=n, q=q) for n in (0, 1, 2) for q in (34, 39)],
+            quick=[dict(Q, n=n, q=q) for n in (0, 1, 2) for q in (34, 39)] +
+            [dict(Q, n=1, q=q, after_other_quote=True) for q in (34, 39)],
             thorough=[dict(Q, n=n, q=q, _budget=900) for n in (0, 1, 2, 3)
                       for q in (34, 39)]),
     Harness('long_code', long_code,
